@@ -79,7 +79,7 @@ def check_case(fn, recipe, script, focus, contexts, rec=None):
                 out = PR.run_call(f, fn, recipe, glb, script)
     except PR.Timeout:
         HY.force_global_clean()
-        raise PropertyViolation("hang", f"probing({sel!r}) run did not finish within 3 s\n{src}")
+        raise PropertyViolation("hang", f"probing({sel!r}) run did not finish within 3 s of CPU time\n{src}")
     except BaseException as e:
         if isinstance(e, (KeyboardInterrupt, SystemExit)):
             raise
